@@ -107,16 +107,22 @@ impl Kinematics for OPWKinematics {
                     let s_n;
                     if let Some(Singularity::A) = singularity {
                         let mut now = ik[s_idx];
-                        if are_angles_close(now[J5], 0.) {
+                        // Work in model angles (sign corrections and offsets applied), as the
+                        // J4 / J6 redistribution is only valid there.
+                        let p = &self.parameters;
+                        let model = |j: &Joints, i: usize| j[i] * p.sign_corrections[i] as f64 - p.offsets[i];
+                        let (prev_4, prev_6) = (model(previous, J4), model(previous, J6));
+                        let (now_4, now_6) = (model(&now, J4), model(&now, J6));
+                        if are_angles_close(model(&now, J5), 0.) {
                             // J5 = 0 singlularity, J4 and J6 rotate same direction
-                            s = previous[J4] + previous[J6];
-                            s_n = now[J4] + now[J6];
+                            s = prev_4 + prev_6;
+                            s_n = now_4 + now_6;
                         } else {
                             // J5 = -180 or 180 singularity, even if the robot would need
                             // specific design to rotate J5 to this angle without self-colliding.
                             // J4 and J6 rotate in opposite directions
-                            s = previous[J4] - previous[J6];
-                            s_n = now[J4] - now[J6];
+                            s = prev_4 - prev_6;
+                            s_n = now_4 - now_6;
 
                             // Fix J5 sign to match the previous
                             normalize_near(&mut now[J5], previous[J5]);
@@ -131,8 +137,8 @@ impl Kinematics for OPWKinematics {
                         }
                         let j_d = angle / 2.0;
 
-                        now[J4] = previous[J4] + j_d;
-                        now[J6] = previous[J6] + j_d;
+                        now[J4] = (prev_4 + j_d + p.offsets[J4]) * p.sign_corrections[J4] as f64;
+                        now[J6] = (prev_6 + j_d + p.offsets[J6]) * p.sign_corrections[J6] as f64;
 
                         // Check last time if the pose is ok
                         let check_pose = self.forward(&now);
